@@ -220,3 +220,181 @@ theorem localIndices_lt {n q r i : Nat} (hq : 0 < q) (hr : r < q) (hi : i ∈ lo
   exact List.mem_range.mp this
 
 end NiftyVerif.SampleFiles
+
+namespace NiftyVerif.SampleFiles
+open NiftyVerif.Distributed
+
+/-! ### saving WITHOUT overwrite: existing files are never touched -/
+
+theorem writeOne_false_preserves {d d' : Dir} {i : Nat} {t : Tag} (h : writeOne false d i t = some d') :
+    d.files i = none ∧ ∀ j, j ≠ i → d'.files j = d.files j := by
+  unfold writeOne at h
+  cases hf : d.files i with
+  | some v => simp [hf] at h
+  | none =>
+    simp only [hf, Option.isSome_none, Bool.and_false, Bool.false_eq_true, if_false, Option.some.injEq] at h
+    subst h
+    exact ⟨rfl, fun j hj => by simp [hj]⟩
+
+/-- per file: a non-overwriting write loop leaves every existing file as it is, and a file that did not exist either
+    still does not exist or holds the content the loop was given for it -/
+theorem writeSeq_false_files : ∀ (items : List (Nat × Tag)) (d : Dir) (j : Nat),
+    (∀ t, d.files j = some t → (writeSeq false d items).1.files j = some t) ∧
+    (d.files j = none → (writeSeq false d items).1.files j = none ∨
+      ∃ t, (j, t) ∈ items ∧ (writeSeq false d items).1.files j = some t) := by
+  intro items
+  induction items with
+  | nil => intro d j; exact ⟨fun t h => h, fun h => Or.inl h⟩
+  | cons p rest ih =>
+    intro d j
+    obtain ⟨i, t0⟩ := p
+    unfold writeSeq
+    cases hw : writeOne false d i t0 with
+    | none => exact ⟨fun t h => h, fun h => Or.inl h⟩
+    | some d' =>
+      simp only
+      obtain ⟨hnone, hother⟩ := writeOne_false_preserves hw
+      have hd' := (writeOne_some hw).1
+      constructor
+      · intro t ht
+        have hji : j ≠ i := by intro e; rw [e, hnone] at ht; cases ht
+        exact (ih d' j).1 t (by rw [hother j hji]; exact ht)
+      · intro hj
+        by_cases hji : j = i
+        · subst hji
+          right
+          have : d'.files j = some t0 := by rw [hd']; simp
+          exact ⟨t0, List.mem_cons_self .., (ih d' j).1 t0 this⟩
+        · rcases (ih d' j).2 (by rw [hother j hji]; exact hj) with h | ⟨t, ht, h⟩
+          · exact Or.inl h
+          · exact Or.inr ⟨t, List.mem_cons_of_mem _ ht, h⟩
+
+theorem writeRanks_false_files : ∀ (rs : List (List (Nat × Tag))) (d : Dir) (j : Nat),
+    (∀ t, d.files j = some t → (writeRanks false d rs).1.files j = some t) ∧
+    (d.files j = none → (writeRanks false d rs).1.files j = none ∨
+      ∃ t, (j, t) ∈ rs.flatten ∧ (writeRanks false d rs).1.files j = some t) := by
+  intro rs
+  induction rs with
+  | nil => intro d j; exact ⟨fun t h => h, fun h => Or.inl h⟩
+  | cons items rest ih =>
+    intro d j
+    unfold writeRanks
+    simp only
+    have h1 := writeSeq_false_files items d j
+    have h2 := ih (writeSeq false d items).1 j
+    constructor
+    · intro t ht; exact h2.1 t (h1.1 t ht)
+    · intro hj
+      rcases h1.2 hj with h | ⟨t, ht, h⟩
+      · rcases h2.2 h with h' | ⟨t', ht', h'⟩
+        · exact Or.inl h'
+        · exact Or.inr ⟨t', by simp only [List.flatten_cons, List.mem_append]; exact Or.inr ht', h'⟩
+      · exact Or.inr ⟨t, by simp only [List.flatten_cons, List.mem_append]; exact Or.inl ht, h2.1 t h⟩
+
+/-- a load from ANY directory in which file 0 is visible succeeds and returns, in order, the contents of the files
+    `0 .. n-1`, `n` = the first missing index -/
+theorem load_general (d : Dir) (q : Nat) (hq : 0 < q) (h0 : (d.files 0).isSome ∧ 0 < d.hi) :
+    ∃ n per, consecutiveLength (listing d) = .ok n ∧ load d q false = .ok per ∧
+      per.flatten = (List.range n).map (fun i => (d.files i).getD 0) ∧
+      (∀ i, i < n → (d.files i).isSome) ∧ (n < d.hi → d.files n = none) := by
+  have hmemL : ∀ i, i ∈ listing d ↔ i < d.hi ∧ (d.files i).isSome := by
+    intro i; simp [listing]
+  have h0L : 0 ∈ listing d := (hmemL 0).mpr ⟨h0.2, h0.1⟩
+  have hcl : consecutiveLength (listing d) = .ok (consGo (listing d) 0 (listing d).length) := by
+    simp [consecutiveLength, h0L]
+  obtain ⟨_, hn1, hall, hnot⟩ := consecutiveLength_spec hcl
+  generalize consGo (listing d) 0 (listing d).length = n at hcl hn1 hall hnot
+  have hpres : ∀ i, i < n → (d.files i).isSome := fun i hi => ((hmemL i).mp (hall i hi)).2
+  have hne : (listing d).isEmpty = false := by
+    cases hl : listing d with
+    | nil => rw [hl] at h0L; cases h0L
+    | cons a l => rfl
+  have hrows : ∀ r, r < q → ((localIndices n q r).map d.files).filterMap id =
+      (localIndices n q r).map (fun i => (d.files i).getD 0) ∧
+      ((localIndices n q r).map d.files).all Option.isSome = true := by
+    intro r hr
+    apply filterMap_files
+    intro i hi
+    have := hpres i (localIndices_lt hq hr hi)
+    cases hf : d.files i with
+    | none => rw [hf] at this; cases this
+    | some v => rfl
+  refine ⟨n, (List.range q).map (fun r => (localIndices n q r).map (fun i => (d.files i).getD 0)), hcl, ?_, ?_, hpres, ?_⟩
+  · unfold load
+    simp only [Bool.false_and, Bool.false_eq_true, if_false, hne, hcl]
+    have hallr : ((List.range q).map (fun r => (localIndices n q r).map d.files)).all
+        (fun row => row.all Option.isSome) = true := by
+      rw [List.all_eq_true]
+      intro row hrow
+      obtain ⟨r, hr, rfl⟩ := List.mem_map.mp hrow
+      exact (hrows r (List.mem_range.mp hr)).2
+    rw [if_pos hallr]
+    congr 1
+    rw [List.map_map]
+    apply List.map_congr_left
+    intro r hr
+    exact (hrows r (List.mem_range.mp hr)).1
+  · rw [← List.flatMap_def, ← List.map_flatMap, NiftyVerif.C22.localIndices_concat _ q hq]
+  · intro hlt
+    cases hf : d.files n with
+    | none => rfl
+    | some v =>
+      exfalso; apply hnot
+      rw [hmemL]; exact ⟨hlt, by rw [hf]; rfl⟩
+
+end NiftyVerif.SampleFiles
+
+namespace NiftyVerif.SampleFiles
+
+theorem writeSeq_false_ok : ∀ (items : List (Nat × Tag)) (d : Dir), (∀ p ∈ items, d.files p.1 = none) →
+    (items.map Prod.fst).Nodup → (writeSeq false d items).2 = true := by
+  intro items
+  induction items with
+  | nil => intro d _ _; rfl
+  | cons p rest ih =>
+    intro d habs hnd
+    obtain ⟨i, t⟩ := p
+    have hnd' : i ∉ rest.map Prod.fst ∧ (rest.map Prod.fst).Nodup := List.nodup_cons.mp hnd
+    have hi : d.files i = none := habs (i, t) (List.mem_cons_self ..)
+    unfold writeSeq
+    have hw : writeOne false d i t = some { d with files := fun j => if j = i then some t else d.files j, hi := max d.hi (i + 1) } := by
+      simp [writeOne, hi]
+    simp only [hw]
+    apply ih _ _ hnd'.2
+    intro q hq
+    have hqi : q.1 ≠ i := fun e => hnd'.1 (by rw [← e]; exact List.mem_map_of_mem hq)
+    simp only [hqi, if_false]
+    exact habs q (List.mem_cons_of_mem _ hq)
+
+theorem writeRanks_false_ok : ∀ (rs : List (List (Nat × Tag))) (d : Dir), (∀ p ∈ rs.flatten, d.files p.1 = none) →
+    (rs.flatten.map Prod.fst).Nodup → (writeRanks false d rs).2 = true := by
+  intro rs
+  induction rs with
+  | nil => intro d _ _; rfl
+  | cons items rest ih =>
+    intro d habs hnd
+    simp only [List.flatten_cons, List.map_append] at hnd
+    have hnd' := List.nodup_append.mp hnd
+    unfold writeRanks
+    simp only [Bool.and_eq_true]
+    constructor
+    · exact writeSeq_false_ok items d (fun p hp => habs p (by simp only [List.flatten_cons, List.mem_append]; exact Or.inl hp)) hnd'.1
+    · apply ih _ _ hnd'.2.1
+      intro q hq
+      rw [writeSeq_other false items d q.1]
+      · exact habs q (by simp only [List.flatten_cons, List.mem_append]; exact Or.inr hq)
+      · intro p hp e
+        exact hnd'.2.2 p.1 (List.mem_map_of_mem hp) q.1 (List.mem_map_of_mem hq) e
+
+theorem preCheck_iff (d : Dir) (items : List (List (Nat × Tag))) (mean : Option Tag) :
+    preCheck d items mean = true ↔ (∀ p ∈ items.flatten, d.files p.1 = none) ∧ (mean.isNone ∨ d.mean.isNone) := by
+  simp only [preCheck, Bool.and_eq_true, List.all_eq_true, Bool.or_eq_true, Option.isNone_iff_eq_none, List.mem_flatten]
+  constructor
+  · rintro ⟨h1, h2⟩
+    refine ⟨?_, h2⟩
+    rintro p ⟨l, hl, hp⟩
+    exact h1 l hl p hp
+  · rintro ⟨h1, h2⟩
+    exact ⟨fun l hl p hp => h1 p ⟨l, hl, hp⟩, h2⟩
+
+end NiftyVerif.SampleFiles
